@@ -21,6 +21,9 @@ func main() {
 	verif := flag.String("verif", "/verif", "verification directory (evidence, known findings)")
 	dump := flag.String("dump", "", "debug: dump the fact graph of pkg:func (e.g. :negotiateFeatures, mux:(*ServeMux).HandleXMPP)")
 	list := flag.Bool("list", false, "list registered properties")
+	goarch := flag.String("goarch", "", "load the tree for this GOARCH (thorough tier child)")
+	variant := flag.String("variant", "", "PROPERTY#id: analyse the stored variant of the current tree as an overlay (thorough tier child)")
+	variantsFrom := flag.String("variants-from", "", "verification directory holding selftest/mutants (default: -verif)")
 	flag.Parse()
 	if *list {
 		var ids []string
@@ -67,7 +70,29 @@ func main() {
 		os.Exit(2)
 	}
 	cmd := fmt.Sprintf("/verif/bin/xmppcheck -property %s -tier %s", *prop, *tier)
-	p, err := eng.Load(*repo)
+	var overlay map[string][]byte
+	var extraEnv []string
+	if *goarch != "" {
+		extraEnv = append(extraEnv, "GOARCH="+*goarch, "CGO_ENABLED=0")
+	}
+	if *variant != "" {
+		from := *variantsFrom
+		if from == "" {
+			from = *verif
+		}
+		v, verr := findVariant(from, *variant)
+		if verr != nil {
+			fmt.Fprintln(os.Stderr, verr)
+			os.Exit(2)
+		}
+		ov, ok, why := overlayFor(*repo, v)
+		if !ok {
+			fmt.Fprintln(os.Stderr, "stale variant:", why)
+			os.Exit(3)
+		}
+		overlay = ov
+	}
+	p, err := eng.LoadWith(*repo, overlay, extraEnv)
 	rep := eng.NewReport(p, *prop, *tier)
 	if err != nil {
 		rep.CheckNamed(*prop+".load", "-", "load", "repository loads and type-checks", 0, false, err.Error())
@@ -87,6 +112,13 @@ func main() {
 		}
 		r.Run(p, rep, *tier)
 	}()
+	if *tier == "thorough" && *variant == "" && *goarch == "" {
+		base := map[string]bool{}
+		for _, o := range rep.Obls {
+			base[o.Key] = o.OK
+		}
+		thorough(rep, *prop, *repo, *verif, base)
+	}
 	if len(rep.Obls) == 0 {
 		rep.CheckNamed(*prop+".empty", "-", "checker", "at least one obligation", 0, false, "no obligations generated")
 	}
